@@ -21,6 +21,8 @@ def run(ctx):
     for a in N.STAT_AXIOM_REASONS[:2]:
         ctx.assume(a)
     ctx.assume('real-number semantics: overflow, underflow and rounding are not modelled; observations are finite numbers (NaN is refused by register)')
+    ctx.assume('a local sequence that was checked as a whole (validation loop, any / all, converting comprehension) keeps its elements until a later loop over it: '
+               'it is not mutated through another reference (e.g. by a listener that re-enters while the batch is registered)')
     from ..statrules import memo_soundness
     memo_soundness(ctx, 'R9.9', ['statistics'])
     ctx.rule('R9.1', 'every Tally query and register is total: no division by zero, no pow/sqrt/inv_cdf domain error on any path (numeric abstract interpretation)')
